@@ -119,3 +119,32 @@ func runHookDomain(domain string, out *bufio.Writer, rng *rand.Rand, cnt func(q,
 	}
 	return true
 }
+
+func replayHook(out *bufio.Writer, line string, f []string) bool {
+	if f[0] != "H" || len(f) < 4 || f[2] != "evalraw" {
+		return false
+	}
+	var ts []gmars.VerifToken
+	if f[3] != "-" {
+		for _, t := range strings.Split(f[3], ",") {
+			p := strings.SplitN(t, ":", 2)
+			typ := 0
+			fmt.Sscan(p[0], &typ)
+			b, _ := hex.DecodeString(p[1])
+			ts = append(ts, gmars.VerifToken{Typ: typ, Val: string(b)})
+		}
+	}
+	val, res := 0, ""
+	var err error
+	fl := guarded(5*time.Second, func() { val, err = gmars.VerifEval(ts) })
+	switch {
+	case fl != "":
+		res = fl
+	case err != nil:
+		res = "err"
+	default:
+		res = fmt.Sprintf("ok %d", val)
+	}
+	fmt.Fprintf(out, "%s | %s\n", strings.SplitN(line, " | ", 2)[0], res)
+	return true
+}
